@@ -262,6 +262,18 @@ fn check(c: &Case, st: &mut Stats) -> Verdict {
     if all.is_empty() {
         return Ok(());
     }
+    // an eighth of the cases: a long list (the same ingredients several times over, 65-200 entries)
+    if c.picks.first().is_some_and(|p| p % 8 == 0) {
+        let target = 65 + (c.picks[0] as usize / 8) % 136;
+        let n0 = all.len();
+        let mut k = 0;
+        while all.len() < target {
+            all.push(all[k % n0].clone());
+            all_q.push(all_q[k % n0].clone());
+            k += 1;
+        }
+        st.class("combine more than 64 ingredients");
+    }
     st.nontrivial(&(format!("{srcs:?}"), c.factor_bits, &c.picks));
     // combine: every order, selections
     let combined = match guard(|| combine_ingredients(&all)) {
